@@ -12,7 +12,10 @@ Inductive case :=
         (pre : list entry3) (bals : list N) (fee : N)        (* pre-state: storage, GAS of accounts 0..4, fee/byte *)
         (p : prog)
         (halt : bool) (post : list entry3) (bals' : list N) (feeC feeS : N)   (* observed after the block *)
-        (evs : list event).                                  (* the transaction's stored notification list *)
+        (evs : list event)                                   (* the transaction's stored notification list *)
+| CBlock (pre : list entry3) (bals : list N) (fee : N)        (* several transactions in ONE block, one reused VM *)
+         (txs : list (bool * prog * bool * list event))       (* (ran out of gas, tree, observed halt, observed events) *)
+         (post : list entry3) (bals' : list N) (feeC feeS : N).
 
 Definition nkeys : N := 6.
 Definition naccounts : N := 5.
@@ -78,8 +81,46 @@ Definition mech_ok (m : txout) (halt : bool) post bals' feeC feeS evs : bool :=
   Bool.eqb (halted m) halt && list_eqb event_eqb (events m) evs
   && state_is (lst (after m)) (dflt (lnc (after m))) post bals' feeC feeS.
 
+(* a block against single transactions threaded through the state the halted ones leave.
+   A transaction that ran out of gas is not predicted (gas is not modelled): it must have faulted, and counts as absent. *)
+Fixpoint block_mech (pol : policy) (base : layer) (txs : list (bool * prog * bool * list event)) : option layer :=
+  match txs with
+  | [] => Some base
+  | (oog, p, halt, evs) :: r =>
+      if oog then (if halt then None else block_mech pol base r)
+      else
+        let o := run_tx pol base p in
+        if Bool.eqb (halted o) halt && list_eqb event_eqb (events o) evs then block_mech pol (after o) r else None
+  end.
+Fixpoint block_ideal (base : layer) (txs : list (bool * prog * bool * list event)) : option layer :=
+  match txs with
+  | [] => Some base
+  | (oog, p, halt, evs) :: r =>
+      if oog then (if halt then None else block_ideal base r)
+      else
+        let i := irun_tx base p in
+        if Bool.eqb (ihalted i) halt then
+          if halt then
+            if list_eqb event_eqb (intf (iafter i)) evs
+            then block_ideal (mkL (ist (iafter i)) (Some (ifee (iafter i)))) r else None
+          else block_ideal base r
+        else None
+  end.
+
 Definition check_case (c : case) : N :=
   match c with
+  | CBlock pre bals fee txs post bals' feeC feeS =>
+      let base := base_of pre bals fee in
+      if negb (forallb (fun t => let '(_, p, _, _) := t in entry_ok p && small p && guard Lazy p) txs
+               && (length bals =? N.to_nat naccounts)%nat) then 3
+      else
+        let fin pol := match block_mech pol base txs with
+                       | Some b => state_is (lst b) (dflt (lnc b)) post bals' feeC feeS
+                       | None => false end in
+        let spec_ok := match block_ideal base txs with
+                       | Some b => state_is (lst b) (dflt (lnc b)) post bals' feeC feeS
+                       | None => false end in
+        code_of (fin Lazy || fin Eager) spec_ok
   | CTree cls pre bals fee p halt post bals' feeC feeS evs =>
       let base := base_of pre bals fee in
       if negb (entry_ok p && small p && (length bals =? N.to_nat naccounts)%nat) then 3
